@@ -615,10 +615,18 @@ class AsyncFIXConnection:
                 msg_logon.set(FTag.HeartBtInt, logon_msg[FTag.HeartBtInt])
                 await self.send_msg(msg_logon)
 
+        if self._connection_state <= ConnectionState.DISCONNECTED_BROKEN_CONN:
+            # disconnected while Logon() response was being sent
+            return
+
         if msg_seq_num == self._session.next_num_in:
             await self._state_set(ConnectionState.ACTIVE)
         else:
             await self._state_set(ConnectionState.RECV_SEQNUM_TOO_HIGH)
+
+        if self._connection_state <= ConnectionState.DISCONNECTED_BROKEN_CONN:
+            # disconnected by application in on_state_change()
+            return
 
         await self.on_logon(self._connection_state == ConnectionState.ACTIVE)
 
